@@ -40,26 +40,13 @@ func runC24(c *an.Ctx) {
 			return isC && k.Value == nil
 		}
 		both := func(in ssa.Instruction) bool { return isMake(in) || isOK(in) }
-		byField := func(name string, ops ...token.Token) *an.Guard {
-			return &an.Guard{Name: "hdr." + name, FailValue: an.ATrue, MatchValue: func(v ssa.Value) bool {
-				b, ok := v.(*ssa.BinOp)
-				if !ok {
-					return false
-				}
-				okOp := false
-				for _, o := range ops {
-					if b.Op == o {
-						okOp = true
-					}
-				}
-				if !okOp {
-					return false
-				}
-				return strings.HasSuffix(an.AccessPath(b.X), "."+name) || strings.HasSuffix(an.AccessPath(b.Y), "."+name)
-			}}
+		// "hdr.<field> <op> other" in any spelling (operands mirrored, operator negated)
+		byField := func(name string, op token.Token) []*an.Guard {
+			isF := func(x ssa.Value) bool { return strings.HasSuffix(an.AccessPath(x), "."+name) }
+			return relGuards("hdr."+name, op, isF, func(y ssa.Value) bool { return !isF(y) })
 		}
 		for _, tc := range []struct {
-			g    *an.Guard
+			g    []*an.Guard
 			act  func(ssa.Instruction) bool
 			name string
 			rule string
@@ -68,7 +55,7 @@ func runC24(c *an.Ctx) {
 			{byField("Length", token.GTR), both, "length", "a frame announcing more than MAX_PAYLOAD_LEN bytes is rejected before the payload buffer is allocated"},
 			{byField("Checksum", token.NEQ), isOK, "checksum", "a frame whose payload checksum does not match is rejected"},
 		} {
-			v := an.Guarded(c.P, rm, []*an.Guard{tc.g}, tc.act, false)
+			v := an.Guarded(c.P, rm, tc.g, tc.act, false)
 			c.Check(v.Holds && v.GuardSites == 1 && v.ActionSites >= 1, "guard|ReadMessage|"+tc.name, tc.rule, c.P.Rel(rm.Pos()), fmt.Sprintf("guard sites %d; %s", v.GuardSites, v.Witness))
 		}
 		// the bound compared is MAX_PAYLOAD_LEN and the allocation size is the checked length
@@ -91,8 +78,12 @@ func runC24(c *an.Ctx) {
 		}
 		for _, b := range rmBlocks {
 			for _, in := range b.Instrs {
-				if bo, ok := in.(*ssa.BinOp); ok && bo.Op == token.GTR && isLength(bo.X) {
-					if k, isK := bo.Y.(*ssa.Const); isK && maxPayload != nil && k.Value != nil && constant.Compare(k.Value, token.EQL, maxPayload.Val()) {
+				if bo, ok := in.(*ssa.BinOp); ok {
+					isMax := func(y ssa.Value) bool {
+						k, isK := y.(*ssa.Const)
+						return isK && maxPayload != nil && k.Value != nil && constant.Compare(k.Value, token.EQL, maxPayload.Val())
+					}
+					if m, _ := relMatch(bo, token.GTR, func(x ssa.Value) bool { _, isK := x.(*ssa.Const); return !isK && isLength(x) }, isMax); m {
 						okBound = true
 					}
 				}
